@@ -1,6 +1,8 @@
 """C08 / C09 driver: max_flow, min_cost_flow, network_simplex, solve_assignment."""
 import random
 
+from drivers.labels import cont_mode, seq1
+
 INF = float("inf")
 
 
@@ -58,7 +60,8 @@ def run_maxflow(case):
         for lb in labs:
             g.setdefault(_fresh(lb), [])
     try:
-        r = max_flow(g, _fresh(labs[case["s"]]), _fresh(labs[case["t"]]))
+        cm = cont_mode(case)
+        r = max_flow({k: seq1(v, cm) for k, v in g.items()}, _fresh(labs[case["s"]]), _fresh(labs[case["t"]]))
         if not _isint(r.objective):
             ev = {"e": "raise", "fn": "max_flow", "what": "non_integral_value"}
         else:
@@ -100,7 +103,8 @@ def run_mincost(case):
         for u, v, c, w in real_arcs:
             g[labs[u]].append((_fresh(labs[v]), c, w))
         try:
-            events.append(_cost_event("min_cost_flow", min_cost_flow(g, _fresh(labs[case["s"]]), _fresh(labs[case["t"]]), case["demand"]), ids, off))
+            cm = cont_mode(case)
+            events.append(_cost_event("min_cost_flow", min_cost_flow({k: seq1(v, cm) for k, v in g.items()}, _fresh(labs[case["s"]]), _fresh(labs[case["t"]]), case["demand"]), ids, off))
         except Exception as ex:  # noqa: BLE001
             events.append({"e": "raise", "fn": "min_cost_flow", "what": type(ex).__name__})
         supplies = [0] * n
